@@ -39,7 +39,7 @@ DecodeNext == /\ phase = "decoding" /\ pos < Len(rows)
 Build == /\ phase = "decoding" /\ pos = Len(rows)
          /\ IF Dev_NoWrapsEscapes /\ \E j \in 1..Len(traces) : traces[j] \in EscapingKinds
             THEN rc' = 1 /\ phase' = "crashed"
-            ELSE rc' = 0 /\ phase' = IF Len(traces) = 0 THEN "no_traces" ELSE "stub"
+            ELSE rc' = 0 /\ phase' = IF \A j \in 1..Len(traces) : ~HereKind(traces[j]) THEN "no_traces" ELSE "stub"
          /\ UNCHANGED <<rows, pos, traces, failed>>
 Next == (\E kind \in Kinds : AddRow(kind)) \/ StartCommand \/ DecodeNext \/ Build
 Spec == Init /\ [][Next]_vars
@@ -48,5 +48,5 @@ NeverFatal == phase # "crashed" /\ rc = 0
 SkipsExactly == phase \in {"stub", "no_traces"} =>
                   /\ failed = Cardinality({j \in 1..Len(rows) : ~DecodableKind(rows[j])})
                   /\ Len(traces) = Cardinality({j \in 1..Len(rows) : DecodableKind(rows[j])})
-NoTracesIff == phase = "no_traces" <=> (phase \notin {"building", "decoding", "crashed"} /\ \A j \in 1..Len(rows) : ~DecodableKind(rows[j]))
+NoTracesIff == phase = "no_traces" <=> (phase \notin {"building", "decoding", "crashed"} /\ \A j \in 1..Len(rows) : ~HereKind(rows[j]))
 =============================================================================
